@@ -97,13 +97,19 @@ theorem C16_table_iff (t : TableShape) :
   unfold validateTable
   cases hx <;> cases hy <;> cases hxy <;> simp <;> (repeat' split) <;> simp_all <;> omega
 
-/-- **species keys**: a key is accepted iff it has exactly one separator -/
-theorem C16_key_iff (parts : List String) : (splitKey parts).isSome ↔ parts.length = 2 := by
+/-- **species keys**: a key is accepted iff it has exactly one separator and a non-blank label on either side -/
+theorem C16_key_iff (parts : List String) :
+    (splitKey parts).isSome ↔ ∃ a b, parts = [a, b] ∧ strip a ≠ "" ∧ strip b ≠ "" := by
   match parts with
   | [] => simp [splitKey]
   | [_] => simp [splitKey]
-  | [_, _] => simp [splitKey]
+  | [a, b] =>
+    simp only [splitKey]
+    by_cases ha : strip a = "" <;> by_cases hb : strip b = "" <;> simp [ha, hb]
+    exact ⟨a, b, ⟨rfl, rfl⟩, ha, hb⟩
   | _ :: _ :: _ :: _ => simp [splitKey]
+
+example : (splitKey ["Si", " O"]).isSome = true ∧ (splitKey ["", "O"]).isSome = false ∧ (splitKey ["Si", "  "]).isSome = false := by decide +kernel
 
 /-- **targets**: every target the reference manual lists is accepted (synonyms mapped), an omitted target means LAMMPS -/
 theorem C16_documented_targets : ∀ t ∈ documentedTargets, (validateTarget (some t)).isSome := by
